@@ -113,9 +113,12 @@ class RedisMessageBroker(MessageBrokerT):
         else:  # pragma: no cover
             params = self.PARAMETERS_CLASS()
 
-        reject_to = "n"  # normal queue
-        if raw_params[1] is not None:
-            reject_to = raw_params[1].decode()
+        if raw_params[1] is None:
+            # every taken message carries the marker, and every terminal action removes it:
+            # the message isn't held (anymore), e.g. the caller of an ack was cancelled
+            # after the server had already executed it - there is nothing to hand back
+            return
+        reject_to = raw_params[1].decode()
 
         async with self.conn.pipeline(transaction=True) as pipe:
             if reject_to == "dead":
